@@ -273,6 +273,12 @@ class Interp(object):
             nonempty = self.bind_iter(g.target, it, env2)
             return ('seq', self.expr(e.elt, env2), nonempty)
         if isinstance(e, ast.Subscript):
+            # TABLE[x]: x a number variable narrowed to non-finite values, TABLE a module-level dict keyed by them
+            tab = self.nonfinite_table(e.value) if isinstance(e.value, ast.Name) else None
+            if tab is not None and isinstance(e.slice, ast.Name) and e.slice.id in env and env[e.slice.id][0] == 'num':
+                cur = env[e.slice.id][2]
+                if cur and cur <= set(tab) - {'nan'} and all(isinstance(tab[k], str) for k in cur):
+                    return ('str', Tmpl.union([Tmpl(L.rlit(tab[k])) for k in sorted(cur)]))
             raise Unsupported('subscript %s' % norm(e))
         if isinstance(e, ast.Dict):
             return ('pydict', [(self.expr(k, env), self.expr(v, env)) for k, v in zip(e.keys, e.values)])
@@ -766,12 +772,56 @@ class Interp(object):
             raise Unsupported('loop in %s' % norm(st).split('\n')[0])
         raise Unsupported('statement %s' % norm(st).split('\n')[0])
 
+    NF_SPELL = {"float('inf')": 'inf', "float('INF')": 'inf', 'math.inf': 'inf', "float('Inf')": 'inf', "float('+inf')": 'inf',
+                "-float('inf')": '-inf', "-float('INF')": '-inf', '-math.inf': '-inf', "float('-inf')": '-inf',
+                "float('-INF')": '-inf', "float('nan')": 'nan', "float('NaN')": 'nan', "float('NAN')": 'nan', 'math.nan': 'nan'}
+
+    def nonfinite_table(self, name_node):
+        """a module-level dict / set / tuple / list whose keys (members) are all spellings of non-finite floats:
+        {'inf': value|None, ...}; None when the name is anything else"""
+        try:
+            _, d = self.model.const_node(self.modname, name_node.id)
+        except Exception:
+            return None
+        node = d.value if isinstance(d, ast.Assign) else None
+        if isinstance(node, ast.Dict):
+            keys, vals = node.keys, node.values
+        elif isinstance(node, (ast.Set, ast.Tuple, ast.List)):
+            keys, vals = node.elts, [None] * len(node.elts)
+        else:
+            return None
+        out = {}
+        for k, v in zip(keys, vals):
+            sp = self.NF_SPELL.get(norm(k)) if k is not None else None
+            if sp is None:
+                return None
+            out[sp] = v.value if isinstance(v, ast.Constant) else None
+        return out
+
     def nonfinite_test(self, test, env):
-        """x != x | x == float('inf') | x == -float('inf') | math.isnan(x) | math.isinf(x) on a number variable
-        -> (variable, set of non-finite values for which the test is true)"""
+        """x != x | x == float('inf') | x == -float('inf') | math.isnan(x) | math.isinf(x) | x in <table of non-finite
+        floats> on a number variable -> (variable, set of non-finite values for which the test is true).
+        Membership is decided by ==, and nan == nan is false: a NaN the caller supplies is never `in` such a table (it
+        is another object than the key)."""
         def numvar(e):
             return isinstance(e, ast.Name) and e.id in env and env[e.id][0] == 'num'
         t = norm(test)
+        if isinstance(test, ast.BoolOp) and isinstance(test.op, ast.And):
+            # `isinstance(x, float) and <test on x>`: only floats are non-finite, the conjunct changes nothing for them
+            rest = [v for v in test.values if self.truth(v, env) is not True
+                    and not (isinstance(v, ast.Call) and norm(v.func) == 'isinstance' and len(v.args) == 2 and numvar(v.args[0])
+                             and norm(v.args[1]) == 'float')]
+            if len(rest) == 1:
+                r = self.nonfinite_test(rest[0], env)
+                if r is not None and all(not (isinstance(v, ast.Call) and norm(v.func) == 'isinstance') or norm(v.args[0]) == r[0]
+                                         for v in test.values):
+                    return r
+            return None
+        if isinstance(test, ast.Compare) and len(test.ops) == 1 and isinstance(test.ops[0], ast.In) and numvar(test.left) \
+                and isinstance(test.comparators[0], ast.Name):
+            tab = self.nonfinite_table(test.comparators[0])
+            if tab is not None:
+                return (test.left.id, frozenset(set(tab) - {'nan'}))
         if isinstance(test, ast.Compare) and len(test.ops) == 1 and numvar(test.left):
             v = test.left.id
             r = norm(test.comparators[0])
